@@ -28,6 +28,7 @@ from .tast import (
     Tup,
     TVar,
     Uni,
+    Unsup,
 )
 
 _counter = itertools.count()
@@ -148,6 +149,8 @@ class Realizer:
             return t.name
         if isinstance(t, Std):
             return STD_SRC[t.kind]
+        if isinstance(t, Unsup):
+            return f"Annotated[{self.expr(t.base)}, apischema.Unsupported]"
         raise TypeError(t)
 
     def define_enum(self, t: EnumT):
@@ -304,7 +307,23 @@ class Realized:
         linecache.cache.pop(self.module.__file__, None)
 
 
+def clear_typing_caches():
+    """typing caches generic aliases by (==, hash) of their parameters, and Union[A, B] ==
+    Union[B, A]: List[Union[int, str]] evaluated after List[Union[str, int]] returns the *earlier*
+    object, whose alternatives are in the other order.  Every generated module starts from empty
+    typing caches so that the realised annotation is the one the source text spells."""
+    import typing
+
+    for f in getattr(typing, "_cleanups", ()):
+        try:
+            f()
+        except Exception:
+            pass
+
+
 def exec_source(source: str, name: str = None) -> types.ModuleType:
+    if "Union[" in source[len(PRELUDE) :] if source.startswith(PRELUDE) else True:
+        clear_typing_caches()
     n = next(_counter)
     name = name or f"vfgen_{n}"
     filename = f"<{name}>"
